@@ -35,6 +35,17 @@ invoked operation, as the harness does, and `C06t_measure_decreases` states the 
   operations returned, every task finished and the mutex free (`C06t_closed_all_return`): a task
   waiting in `lock()` is eventually granted the mutex.  The `decide`-checked example `progOpen`
   shows a non-closed program with a maximal run that blocks for ever.
+* Hand-off bound: the owner's `unlock()` run alone (6 events) followed by the front waiter run alone
+  (6 events) completes that waiter's `lock()` (`C06t_handoff_bound`) or `try_lock_for`
+  (`C06t_handoff_bound_timed`, first event = its deadline) — 12 events.
+* A `try_lock_for` that returned false found the mutex owned when it enqueued, saw its deadline
+  pass, and either its wait reported `timeout` or it was signalled and found the mutex owned again at
+  the re-test (`C06t_timed_false_observed`, over a transparent observer).  The naive reading "it
+  timed out while the mutex was held" is false for the code as it is (`runTimedFree`).
+
+Not done here: the same statements for `Rec` / `Spin`.  There a waiting thread *spins*
+(`ag.yield`, dropped as stutter), there is no queue and no hand-off order, so termination can only
+be stated modulo that stutter and under a fairness assumption for the spinning thread.
 -/
 namespace PikaVerif.C06t
 open PikaVerif PikaVerif.Mtx PikaVerif.C06
